@@ -521,6 +521,44 @@ func c19DuringStart(c *ev.ChildEnv, res *ev.Result) {
 		res.Violate("C19/update-from-configure", fmt.Sprintf("update issued from the Configure handler: start err=%v, update err=%v, callback invocations=%d, argument equal=%v, failed list equal=%v", cerr, uerr, got.Load(), updatesEqual(arg, sent), updatesEqual(failed, wantFailed)), nil)
 	}
 	res.Seen("update-from-configure")
+
+	// update from the Synchronize handler: the plugin is registered, so the update reaches the callback once
+	// and its result comes back, and the plugin becomes active afterwards
+	got.Store(0)
+	sent2 := []*api.ContainerUpdate{{ContainerId: "syn.c1"}, {ContainerId: "syn.c4"}}
+	sent2[1].SetLinuxCPUShares(78)
+	var failed2 []*api.ContainerUpdate
+	var uerr2 error
+	var events atomic.Int32
+	var p2 *rig.Plugin
+	p2 = rig.NewPlugin("synupd", "30", 0, rig.Handlers{
+		Synchronize: func(context.Context, []*api.PodSandbox, []*api.Container) ([]*api.ContainerUpdate, error) {
+			failed2, uerr2 = p2.Stub.UpdateContainers(cloneUpdates(sent2))
+			return nil, nil
+		},
+		Any: func(api.Event, *api.PodSandbox, *api.Container) { events.Add(1) },
+	})
+	res.Eval()
+	if err := p2.Connect(rt.Sock); err != nil {
+		res.Note("synupd: connect: %v", err)
+		return
+	}
+	defer p2.StopStub()
+	if rig.Await(p2.SyncedCh(), 5*time.Second, 30*time.Second) == "hang" {
+		res.Violate("C19/update-from-synchronize-deadlocks", "a plugin issuing an unsolicited update from its Synchronize handler never gets through its synchronization; goroutines:\n"+nriStacks(), nil)
+		return
+	}
+	for i := 0; i < 50 && events.Load() == 0; i++ {
+		b := rt.A.BlockPluginSync()
+		rt.A.RunPodSandbox(context.Background(), &api.StateChangeEvent{Pod: &api.PodSandbox{Id: fmt.Sprintf("synupd-probe%d", i)}})
+		b.Unblock()
+		time.Sleep(5 * time.Millisecond)
+	}
+	wantFailed2, _ := c19Expect(sent2)
+	if uerr2 != nil || got.Load() != 1 || !updatesEqual(arg, sent2) || !updatesEqual(failed2, wantFailed2) || events.Load() == 0 {
+		res.Violate("C19/update-from-synchronize", fmt.Sprintf("update issued from the Synchronize handler: update err=%v, callback invocations=%d, argument equal=%v, failed list equal=%v, events received afterwards=%d", uerr2, got.Load(), updatesEqual(arg, sent2), updatesEqual(failed2, wantFailed2), events.Load()), nil)
+	}
+	res.Seen("update-from-synchronize")
 }
 
 // c19Slow: the callback's result reaches the plugin unchanged also when the callback (or the wait for the
